@@ -10,11 +10,13 @@ LEVEL_TEXT = ('bounded symbolic execution (CrossHair/z3) of within_directory, th
 LEVEL_NOTE = ('trusted: CrossHair string/regex models (+ vpx/chplugin.py, pure-Python normpath); the '
               'Path representation invariant is assumed for suffixes built directly (C12 establishes '
               'it); duplicate-rule rejection in Makefile.rule/NinjaFile.build rests on injectivity of '
-              'target escaping (C04), set membership itself is not symbolically explored')
+              'target escaping (C04); the duplicate-rule obligations enumerate rule shapes over three '
+              'concrete names (string and Path spellings) rather than symbolic names')
 HARNESS = 'vpx.harness.c05'
 FUNCTIONS = ['bfg9000.builtins.path.within_directory', 'BasePath.relpath', 'BasePath.append',
              'BasePath.parent', 'BasePath.stripext', 'BasePath.reroot', 'BasePath.__init__',
-             'bfg9000.tools.cc.compiler.CcCompiler.default_name', 'CcCompiler.output_file']
+             'bfg9000.tools.cc.compiler.CcCompiler.default_name', 'CcCompiler.output_file', 'bfg9000.backends.make.syntax.Makefile.rule', 'Makefile._target_str',
+             'bfg9000.backends.ninja.syntax.NinjaFile.build', 'NinjaFile._output_str']
 OUTSIDE = ['suffixes longer than the bound', 'running configure/clean/dist and observing the '
            'source directory', 'the literal component PAR (excluded by the property)',
            '~user lookups (leading ~ of a raw user string)', 'Windows drive-letter paths',
@@ -23,6 +25,7 @@ STUBS = ['posixpath.normpath -> CPython pure-Python fallback', 'CcCompiler bound
          '(object_format elf, lang c): default_name/output_file are the real methods']
 ASSUMPTIONS = ['Path suffix representation invariant (normalised, no drive) for directly built paths']
 POSITIONS = ['w_contain', 'w_inverse', 'o_objname', 'o_objname_dir', 'u_user_path']
+SHAPES = ['r_dup_make', 'r_dup_ninja']
 MUTANTS = {'w_inverse': ['within_dir_unescaped_dots'], 'w_contain': ['within_dir_no_par'],
            'u_user_path': ['within_dir_unescaped_dots']}
 
@@ -55,11 +58,19 @@ def obligations(tier, kf):
                 if n == (2 if fn == 'w_inverse' else 3) and d == 1:
                     for m in MUTANTS.get(fn, []):
                         obs.append(ob.mutant(m))
+    for fn in ('r_dup_make', 'r_dup_ninja'):
+        ob = Ob(fn, dict(kf), 900, desc='%s: two rules over 3 names, 1-3 and 1-2 targets, str/Path '
+                                        'spellings (exhaustive shapes)' % fn)
+        obs += [ob, ob.twin()]
+    obs.append(Ob('r_dup_make', dict(kf), 600).mutant('make_rule_registers_last_only'))
+    obs.append(Ob('r_dup_ninja', dict(kf), 600).mutant('ninja_build_str_only'))
     return obs
 
 
 def classify(ob, cex):
     s = cex['args'][0]
+    if not isinstance(s, str):
+        return None
     if s.startswith('~') or s.startswith('./~'):
         return 'C05-F13'
     return None
